@@ -153,7 +153,10 @@ DurIn == { <<"P1D", Du(FALSE, 1, 0, 0)>>, <<"PT1S", Du(FALSE, 0, 1, 0)>>, <<"PT0
            <<"PT1M", Du(FALSE, 0, 60, 0)>>, <<"PT1H", Du(FALSE, 0, 3600, 0)>>, <<"P0D", Du(FALSE, 0, 0, 0)>>, <<"PT0S", Du(FALSE, 0, 0, 0)>>,
            <<"PT36H", Du(FALSE, 1, 43200, 0)>>, <<"P1DT0.123S", Du(FALSE, 1, 0, 123000)>>, <<"PT0.999999S", Du(FALSE, 0, 0, 999999)>>,
            <<"-PT1.5S", Du(TRUE, 0, 1, 500000)>>, <<"P400D", Du(FALSE, 400, 0, 0)>>, <<"PT1M0.05S", Du(FALSE, 0, 60, 50000)>>,
-           <<"PT86400S", Du(FALSE, 1, 0, 0)>>, <<"P2DT23H59M59S", Du(FALSE, 2, 86399, 0)>> }
+           <<"PT86400S", Du(FALSE, 1, 0, 0)>>, <<"P2DT23H59M59S", Du(FALSE, 2, 86399, 0)>>,
+           \* fractions that binary floating point does not hold exactly: the microsecond count is the one that is WRITTEN
+           <<"PT0.999995S", Du(FALSE, 0, 0, 999995)>>, <<"-PT23H59M59.999995S", Du(TRUE, 0, 86399, 999995)>>, <<"PT0.000029S", Du(FALSE, 0, 0, 29)>>,
+           <<"PT1.000001S", Du(FALSE, 0, 1, 1)>>, <<"PT59.000057S", Du(FALSE, 0, 59, 57)>> }
 DurInRows == {[t |-> "Duration", cust |-> "", lit |-> p[1], val |-> p[2]] : p \in DurIn}
 \* write direction: every literal of DurIn that denotes the value is acceptable, plus fully spelled forms
 DurSpell == { <<Du(FALSE, 1, 0, 0), {"P1D", "P1DT0S", "P1DT0H0M0S", "PT24H", "P1DT0H0M0.0S", "P1DT0.0S"}>>,
